@@ -1,3 +1,463 @@
+/-
+  C14 (run level) — a script that pulls in other files with `!include_files` BEHAVES like the
+  script obtained by pasting the listed files at each directive.
+  ONLY property theorems and their non-vacuity examples live here (definitions and lemmas:
+  Lemmas/DirectiveLemmas.lean).
+
+  Props/C14.lean proves the PARSE-level statement: the parse of the root file, with the include
+  directive instructions removed (`stripDirectives`), is the parse of the inlined lines.  The
+  real parse keeps each directive line as a `PreProcess` instruction; the runner
+  (`run_instruction`) does nothing for it: `Continue(None)`, no output variable.  This file
+  proves that removing such instructions does not change what a run does.
+
+  Setting.  `is` is an instruction list, `keep` a selection that only ever rejects pre-processor
+  instructions (`DropsOnlyDirectives`; instances: `dropDirectives` = all pre-processor
+  instructions removed, `stripDirectives` = the include directives removed, `!print` lines kept),
+  `is.filter keep` the shorter list.  Index `k` of `is` corresponds to index `posIn keep is k` of
+  the shorter list = the number of kept instructions before `k` (`C14_pos_counts_kept`).
+
+  WHY the restriction on the command semantics.  Removing instructions shifts the ABSOLUTE
+  indexes of all later instructions.  The runner hands every command the absolute index of the
+  current line and obeys `GoTo(Line(n))` with an absolute `n`.  The theorems are therefore stated
+  for command semantics `sem` that
+    * do not depend on the line index they are given (`LineInsensitive sem`), and
+    * never return `GoTo(_, Line(n))` (`NoAbsoluteJumps sem`);
+  jumps to LABELS are covered in full (a label is always carried by a kept instruction, later
+  duplicates win in both lists: `C14_label_positions`).  The restriction is necessary for a
+  statement about an arbitrary `sem`: the example `C14_absolute_jump_differs` at the end is a
+  one-command semantics jumping to an absolute line for which the two runs end differently.
+  The SDK's block commands (`if/else/end`, `while`, `for`, `function`/`call`) are NOT in the
+  fragment: they return `GoTo(Line(n))` with absolute indexes which they compute by scanning the
+  very instruction list they run in (and they remember absolute indexes in their call/loop
+  stacks), so what they compute is consistent WITHIN either list — the n computed in the long
+  list is the position corresponding to the n computed in the short list.  Stating that needs
+  the full interpreter model of those commands (state invariants relating the stored indexes
+  through `posIn`); it is out of scope here.  For real SDK programs the harness compares
+  `run_script_file` on the including script with a run of the inlined text.
+
+  The halt flag.  The embedder's flag is polled once per loop iteration, and the long list makes
+  extra iterations (one per directive it passes).  An oracle indexed by the NUMBER of the poll
+  can therefore not be preserved (example `C14_poll_indexed_halt_differs`); the theorems hold
+  for `noHalt` and for every oracle that looks at the state only (`StateOnlyHalt`), and then a
+  halted run corresponds to a halted run as well.
+
+  Fuel.  The model runner takes fuel (a script may loop forever).  A finished run of the long
+  list is matched by the short list with the SAME fuel; a finished run of the short list with
+  fuel `f'` is matched by the long list with fuel `f' * (length is + 1)`; and whenever both are
+  finished (any two fuels) they end the same way (`SameOutcome`: same variables, same state,
+  same `RunEnd` — `reachedEnd` / `exitCalled` / `halted` / `fail msg mi` with the same message
+  and the same meta info `mi` of the failing instruction, which is the same instruction object
+  in both lists).  Final line numbers correspond through `posIn`; poll counters are not related.
+
+  Deviations from the task statement, found while proving:
+    * the label statement `lookup is l = some k ↔ lookup is' l = some (pos k)` is FALSE from
+      right to left when `k` is the index of a dropped directive immediately before the label
+      line (`pos` is not injective: `pos k = pos (k+1)` there) — example
+      `C14_label_iff_counterexample`.  The correct statement is the equation
+      `lookup is' l = (lookup is l).map pos` (`C14_label_positions`).
+-/
+import DuckModel.Runner
+import DuckModel.Spec.Machine
 import DuckModel.Lemmas.DirectiveLemmas
 import DuckModel.Props.C03
-import DuckModel.Props.C14
+
+namespace Duck
+open Duck.Spec
+
+/-! ### the index map and the labels -/
+
+/-- `posIn keep is k` counts the kept instructions before index `k` -/
+theorem C14_pos_counts_kept (keep : Instruction → Bool) (is : List Instruction) (k : Nat) :
+    posIn keep is k = ((is.take k).filter keep).length :=
+  posIn_eq_take keep is k
+
+/-- the two instances: all pre-processor instructions / the include directives only -/
+theorem C14_drop_instances (is : List Instruction) :
+    dropDirectives is = is.filter (fun i => !isPreProcess i) ∧
+    stripDirectives is = is.filter (fun i => !isDirective i) ∧
+    DropsOnlyDirectives (fun i => !isPreProcess i) ∧ DropsOnlyDirectives (fun i => !isDirective i) :=
+  ⟨rfl, rfl, dropsOnly_notPre, dropsOnly_notDirective⟩
+
+/-- Labels: the label table of the shorter list is the label table of the list, re-indexed.
+    A label is carried by a kept instruction and the last line carrying it wins in both lists
+    (proved through the declarative reading of the table, `C03_label_table`). -/
+theorem C14_label_positions (keep : Instruction → Bool) (hD : DropsOnlyDirectives keep)
+    (is : List Instruction) (l : Str) :
+    lookupLabel (labelTable (is.filter keep)) l =
+      (lookupLabel (labelTable is) l).map (posIn keep is) := by
+  cases h : lookupLabel (labelTable is) l with
+  | none =>
+    rw [C03_label_table_none] at h
+    simp only [Option.map_none]
+    rw [C03_label_table_none]
+    exact noLabelLine_filter keep is l h
+  | some k =>
+    rw [C03_label_table] at h
+    simp only [Option.map_some]
+    rw [C03_label_table]
+    exact isLabelLine_filter keep hD is l k h
+
+/-- the same, as implications -/
+theorem C14_label_positions_iff (keep : Instruction → Bool) (hD : DropsOnlyDirectives keep)
+    (is : List Instruction) (l : Str) :
+    (∀ k, lookupLabel (labelTable is) l = some k →
+        lookupLabel (labelTable (is.filter keep)) l = some (posIn keep is k)) ∧
+    (∀ j, lookupLabel (labelTable (is.filter keep)) l = some j →
+        ∃ k, lookupLabel (labelTable is) l = some k ∧ posIn keep is k = j) ∧
+    (lookupLabel (labelTable is) l = none ↔ lookupLabel (labelTable (is.filter keep)) l = none) := by
+  have h := C14_label_positions keep hD is l
+  refine ⟨fun k hk => by rw [h, hk]; rfl, fun j hj => ?_, ?_⟩
+  · rw [h] at hj
+    cases hk : lookupLabel (labelTable is) l with
+    | none => rw [hk] at hj; simp at hj
+    | some k => rw [hk] at hj; exact ⟨k, rfl, by simpa using hj⟩
+  · rw [h]
+    cases lookupLabel (labelTable is) l <;> simp
+
+/-! ### the runs -/
+
+/-- Core, long list ⇒ short list.  For command semantics that ignore the line index and never
+    jump to absolute lines, and a halt oracle that looks at the state only: a finished run of
+    `is` from line `k` is matched, with the SAME fuel, by the run of the list without the
+    directives from the corresponding line — same variables, same state, same end (same failure
+    message and meta info), corresponding final line. -/
+theorem C14_run_skips_directives {σ : Type} (sem : CmdSem σ) (hL : LineInsensitive sem)
+    (hN : NoAbsoluteJumps sem) (halt : Nat → σ → Bool) (hH : StateOnlyHalt halt)
+    (keep : Instruction → Bool) (hD : DropsOnlyDirectives keep) (is : List Instruction)
+    (k polls polls' : Nat) (vars : Vars) (s : σ) (fuel : Nat)
+    (hfin : Finished (runLoop sem is (labelTable is) halt fuel ⟨k, polls, vars, s⟩)) :
+    Finished (runLoop sem (is.filter keep) (labelTable (is.filter keep)) halt fuel
+        ⟨posIn keep is k, polls', vars, s⟩) ∧
+    SameOutcome (runLoop sem is (labelTable is) halt fuel ⟨k, polls, vars, s⟩)
+      (runLoop sem (is.filter keep) (labelTable (is.filter keep)) halt fuel
+        ⟨posIn keep is k, polls', vars, s⟩) ∧
+    (runLoop sem (is.filter keep) (labelTable (is.filter keep)) halt fuel
+        ⟨posIn keep is k, polls', vars, s⟩).1.line =
+      posIn keep is (runLoop sem is (labelTable is) halt fuel ⟨k, polls, vars, s⟩).1.line := by
+  obtain ⟨r', hr', hc⟩ := runLoop_filter_forward sem hL hN halt hH keep hD is fuel
+    ⟨k, polls, vars, s⟩ ⟨posIn keep is k, polls', vars, s⟩ _ _ ⟨rfl, rfl, rfl⟩ rfl hfin
+  rw [hr']
+  exact ⟨hfin, ⟨hc.2.1.symm, hc.2.2.symm, rfl⟩, hc.1⟩
+
+/-- Core, short list ⇒ long list.  A finished run of the list without the directives with fuel
+    `fuel'` is matched by the run of `is` with fuel `fuel' * (length is + 1)` (between two
+    steps of the short list the long one makes at most `length is` directive steps). -/
+theorem C14_run_skips_directives_conv {σ : Type} (sem : CmdSem σ) (hL : LineInsensitive sem)
+    (hN : NoAbsoluteJumps sem) (halt : Nat → σ → Bool) (hH : StateOnlyHalt halt)
+    (keep : Instruction → Bool) (hD : DropsOnlyDirectives keep) (is : List Instruction)
+    (k polls polls' : Nat) (vars : Vars) (s : σ) (fuel' : Nat)
+    (hfin : Finished (runLoop sem (is.filter keep) (labelTable (is.filter keep)) halt fuel'
+        ⟨posIn keep is k, polls', vars, s⟩)) :
+    Finished (runLoop sem is (labelTable is) halt (fuel' * (is.length + 1))
+        ⟨k, polls, vars, s⟩) ∧
+    SameOutcome (runLoop sem is (labelTable is) halt (fuel' * (is.length + 1)) ⟨k, polls, vars, s⟩)
+      (runLoop sem (is.filter keep) (labelTable (is.filter keep)) halt fuel'
+        ⟨posIn keep is k, polls', vars, s⟩) ∧
+    (runLoop sem (is.filter keep) (labelTable (is.filter keep)) halt fuel'
+        ⟨posIn keep is k, polls', vars, s⟩).1.line =
+      posIn keep is (runLoop sem is (labelTable is) halt (fuel' * (is.length + 1))
+        ⟨k, polls, vars, s⟩).1.line := by
+  obtain ⟨f, r, hf, hr, hc⟩ := runLoop_filter_backward sem hL hN halt hH keep hD is fuel'
+    (is.length - k) ⟨k, polls, vars, s⟩ ⟨posIn keep is k, polls', vars, s⟩ _ _ (Nat.le_refl _)
+    ⟨rfl, rfl, rfl⟩ rfl hfin
+  have hle : f ≤ fuel' * (is.length + 1) := by
+    simp only at hf
+    omega
+  have hmono := C03_fuel_monotone sem is (labelTable is) halt f (fuel' * (is.length + 1) - f)
+    _ _ _ hr hfin
+  rw [Nat.add_sub_cancel' hle] at hmono
+  rw [hmono]
+  exact ⟨hfin, ⟨hc.2.1.symm, hc.2.2.symm, rfl⟩, hc.1⟩
+
+/-- Core, both finished ⇒ same outcome, whatever the two fuels. -/
+theorem C14_run_agrees {σ : Type} (sem : CmdSem σ) (hL : LineInsensitive sem)
+    (hN : NoAbsoluteJumps sem) (halt : Nat → σ → Bool) (hH : StateOnlyHalt halt)
+    (keep : Instruction → Bool) (hD : DropsOnlyDirectives keep) (is : List Instruction)
+    (k polls polls' : Nat) (vars : Vars) (s : σ) (fuel fuel' : Nat)
+    (h₁ : Finished (runLoop sem is (labelTable is) halt fuel ⟨k, polls, vars, s⟩))
+    (h₂ : Finished (runLoop sem (is.filter keep) (labelTable (is.filter keep)) halt fuel'
+        ⟨posIn keep is k, polls', vars, s⟩)) :
+    SameOutcome (runLoop sem is (labelTable is) halt fuel ⟨k, polls, vars, s⟩)
+      (runLoop sem (is.filter keep) (labelTable (is.filter keep)) halt fuel'
+        ⟨posIn keep is k, polls', vars, s⟩) := by
+  obtain ⟨h₃, hsame, _⟩ := C14_run_skips_directives sem hL hN halt hH keep hD is k polls polls'
+    vars s fuel h₁
+  have m₁ : runLoop sem (is.filter keep) (labelTable (is.filter keep)) halt (fuel + fuel')
+        ⟨posIn keep is k, polls', vars, s⟩ =
+      runLoop sem (is.filter keep) (labelTable (is.filter keep)) halt fuel
+        ⟨posIn keep is k, polls', vars, s⟩ :=
+    C03_fuel_monotone sem (is.filter keep) (labelTable (is.filter keep)) halt fuel fuel'
+      ⟨posIn keep is k, polls', vars, s⟩ _ _ rfl h₃
+  have m₂ : runLoop sem (is.filter keep) (labelTable (is.filter keep)) halt (fuel' + fuel)
+        ⟨posIn keep is k, polls', vars, s⟩ =
+      runLoop sem (is.filter keep) (labelTable (is.filter keep)) halt fuel'
+        ⟨posIn keep is k, polls', vars, s⟩ :=
+    C03_fuel_monotone sem (is.filter keep) (labelTable (is.filter keep)) halt fuel' fuel
+      ⟨posIn keep is k, polls', vars, s⟩ _ _ rfl h₂
+  rw [Nat.add_comm fuel' fuel, m₁] at m₂
+  rw [← m₂]
+  exact hsame
+
+/-- the two oracles the theorems are meant for -/
+theorem C14_halt_oracles {σ : Type} (h : σ → Bool) :
+    StateOnlyHalt (noHalt : Nat → σ → Bool) ∧ StateOnlyHalt (fun (_ : Nat) (s : σ) => h s) :=
+  ⟨fun _ _ _ => rfl, fun _ _ _ => rfl⟩
+
+/-- Whole scripts (`run` = label table + loop from line 0), all pre-processor instructions
+    removed: termination carries over in both directions and finished runs end the same way. -/
+theorem C14_run_dropDirectives {σ : Type} (sem : CmdSem σ) (hL : LineInsensitive sem)
+    (hN : NoAbsoluteJumps sem) (halt : Nat → σ → Bool) (hH : StateOnlyHalt halt)
+    (is : List Instruction) (vars : Vars) (s : σ) :
+    (∀ f, Finished (run sem halt f is vars s) → Finished (run sem halt f (dropDirectives is) vars s)) ∧
+    (∀ f', Finished (run sem halt f' (dropDirectives is) vars s) →
+      Finished (run sem halt (f' * (is.length + 1)) is vars s)) ∧
+    (∀ f f', Finished (run sem halt f is vars s) → Finished (run sem halt f' (dropDirectives is) vars s) →
+      SameOutcome (run sem halt f is vars s) (run sem halt f' (dropDirectives is) vars s)) := by
+  have hp : posIn (fun i => !isPreProcess i) is 0 = 0 := posIn_zero _ is
+  refine ⟨fun f h => ?_, fun f' h => ?_, fun f f' h₁ h₂ => ?_⟩
+  · have := (C14_run_skips_directives sem hL hN halt hH _ dropsOnly_notPre is 0 0 0 vars s f h).1
+    rw [hp] at this
+    exact this
+  · refine (C14_run_skips_directives_conv sem hL hN halt hH _ dropsOnly_notPre is 0 0 0 vars s f'
+      ?_).1
+    rw [hp]
+    exact h
+  · have := C14_run_agrees sem hL hN halt hH _ dropsOnly_notPre is 0 0 0 vars s f f' h₁
+      (by rw [hp]; exact h₂)
+    rw [hp] at this
+    exact this
+
+/-- The same at the level of the abstract machine of C03 (no fuel, no polls): the machine
+    reaches a final outcome on `is` from line `k` iff it reaches the SAME outcome on the list
+    without the directives from the corresponding line. -/
+theorem C14_reaches_iff {σ : Type} (sem : CmdSem σ) (hL : LineInsensitive sem)
+    (hN : NoAbsoluteJumps sem) (keep : Instruction → Bool) (hD : DropsOnlyDirectives keep)
+    (is : List Instruction) (k : Nat) (vars : Vars) (s : σ) (fin : Final σ) :
+    Reaches sem is ⟨k, vars, s⟩ fin ↔
+      Reaches sem (is.filter keep) ⟨posIn keep is k, vars, s⟩ fin := by
+  have hH : StateOnlyHalt (noHalt : Nat → σ → Bool) := fun _ _ _ => rfl
+  have key : ∀ (a b : RunState σ × RunEnd), SameOutcome a b → finalOf a.1 a.2 = finalOf b.1 b.2 := by
+    rintro ⟨a, ea⟩ ⟨b, eb⟩ ⟨h1, h2, h3⟩
+    simp only at h1 h2 h3
+    subst h3
+    cases ea <;> simp [finalOf, h1, h2]
+  have fin_of : ∀ (a : RunState σ × RunEnd), finalOf a.1 a.2 = some fin → Finished a := by
+    rintro ⟨a, ea⟩ h hne
+    simp only at hne
+    subst hne
+    simp [finalOf] at h
+  constructor
+  · intro h
+    obtain ⟨fuel, rs', e, hrun, hf⟩ := C03_complete sem is ⟨k, vars, s⟩ fin h 0
+    have hfin : Finished (runLoop sem is (labelTable is) noHalt fuel ⟨k, 0, vars, s⟩) :=
+      fin_of _ (by rw [hrun]; exact hf)
+    obtain ⟨_, hsame, _⟩ := C14_run_skips_directives sem hL hN noHalt hH keep hD is k 0 0 vars s
+      fuel hfin
+    have := key _ _ hsame
+    rw [hrun] at this
+    exact C03_sound sem (is.filter keep) fuel ⟨posIn keep is k, 0, vars, s⟩ _ _ fin rfl
+      (by rw [← this]; exact hf)
+  · intro h
+    obtain ⟨fuel', rs', e, hrun, hf⟩ :=
+      C03_complete sem (is.filter keep) ⟨posIn keep is k, vars, s⟩ fin h 0
+    have hfin : Finished (runLoop sem (is.filter keep) (labelTable (is.filter keep)) noHalt fuel'
+        ⟨posIn keep is k, 0, vars, s⟩) := fin_of _ (by rw [hrun]; exact hf)
+    obtain ⟨_, hsame, _⟩ := C14_run_skips_directives_conv sem hL hN noHalt hH keep hD is k 0 0
+      vars s fuel' hfin
+    have := key _ _ hsame
+    rw [hrun] at this
+    exact C03_sound sem is (fuel' * (is.length + 1)) ⟨k, 0, vars, s⟩ _ _ fin rfl
+      (by rw [this]; exact hf)
+
+/-! ### including = pasting, at run time -/
+
+/-- Including behaves like pasting.  When the inlining of `root` succeeds within the include
+    depth and every inlined line is well-formed (the hypotheses of `C14_inline_equiv`;
+    `∃ ty, lineOutcome l = .ok ty` is `LineWellFormed l`), the root file parses, and its parse
+    `is` (directives still in it) and the instructions `ls.map instrOf` of the inlined text, run
+    from the same variables and state under the same line-insensitive command semantics
+    without absolute jumps, satisfy:
+    (1) if the run of `is` finishes with fuel `f`, so does the run of the inlined text with `f`;
+    (2) if the run of the inlined text finishes with fuel `f'`, so does the run of `is` with
+        fuel `f' * (length is + 1)`;
+    (3) whenever both finish they end the same way: same variables, same state, same end
+        (for a failure: same message, same (file, line) of the failing instruction). -/
+theorem C14_behaves_like_inlined {σ : Type} (fs : Fs) (fuel : Nat) (root : Str)
+    (ls : List (Meta × Str))
+    (hin : Spec.inline (worldOf fs) fuel root = (ls, none))
+    (hok : ∀ p ∈ ls, ∃ ty, lineOutcome p.2 = .ok ty)
+    (sem : CmdSem σ) (hL : LineInsensitive sem) (hN : NoAbsoluteJumps sem)
+    (halt : Nat → σ → Bool) (hH : StateOnlyHalt halt) (vars : Vars) (s : σ) :
+    ∃ is, parseFileF fs fuel root = .ok is ∧
+    (∀ f, Finished (run sem halt f is vars s) → Finished (run sem halt f (ls.map instrOf) vars s)) ∧
+    (∀ f', Finished (run sem halt f' (ls.map instrOf) vars s) →
+      Finished (run sem halt (f' * (is.length + 1)) is vars s)) ∧
+    (∀ f f', Finished (run sem halt f is vars s) → Finished (run sem halt f' (ls.map instrOf) vars s) →
+      SameOutcome (run sem halt f is vars s) (run sem halt f' (ls.map instrOf) vars s)) := by
+  obtain ⟨is, hparse, hstrip⟩ := inline_strip fs fuel root ls hin hok
+  refine ⟨is, hparse, ?_⟩
+  rw [← hstrip]
+  have hp : posIn (fun i => !isDirective i) is 0 = 0 := posIn_zero _ is
+  refine ⟨fun f h => ?_, fun f' h => ?_, fun f f' h₁ h₂ => ?_⟩
+  · have := (C14_run_skips_directives sem hL hN halt hH _ dropsOnly_notDirective is 0 0 0 vars s
+      f h).1
+    rw [hp] at this
+    exact this
+  · refine (C14_run_skips_directives_conv sem hL hN halt hH _ dropsOnly_notDirective is 0 0 0
+      vars s f' ?_).1
+    rw [hp]
+    exact h
+  · have := C14_run_agrees sem hL hN halt hH _ dropsOnly_notDirective is 0 0 0 vars s f f' h₁
+      (by rw [hp]; exact h₂)
+    rw [hp] at this
+    exact this
+
+/-- The same for any instruction list `is` (it need not come from a parse) and the list `is₂`
+    of its non-include-directive instructions — the conclusion of `C14_inline_equiv` is exactly
+    `stripDirectives is = ls.map instrOf` for the parse `is` of the root file: never halted,
+    both runs finished ⇒ same outcome. -/
+theorem C14_run_stripDirectives {σ : Type} (is is₂ : List Instruction)
+    (hstrip : stripDirectives is = is₂)
+    (sem : CmdSem σ) (hL : LineInsensitive sem) (hN : NoAbsoluteJumps sem)
+    (vars : Vars) (s : σ) (f f' : Nat)
+    (h₁ : Finished (run sem noHalt f is vars s)) (h₂ : Finished (run sem noHalt f' is₂ vars s)) :
+    SameOutcome (run sem noHalt f is vars s) (run sem noHalt f' is₂ vars s) := by
+  subst hstrip
+  have hp : posIn (fun i => !isDirective i) is 0 = 0 := posIn_zero _ is
+  have := C14_run_agrees sem hL hN noHalt (fun _ _ _ => rfl) _ dropsOnly_notDirective is 0 0 0
+    vars s f f' h₁ (by rw [hp]; exact h₂)
+  rw [hp] at this
+  exact this
+
+/-! ### the hypotheses are satisfiable, the conclusions are about real runs (non-vacuity) -/
+
+namespace C14RunExample
+
+def L : Str := "L".toList
+def x : Str := "x".toList
+
+/-- `jump` / `!include_files f.ds` / `boom` / `:L x = set` -/
+def prog : List Instruction :=
+  [ ⟨{ line := some 1 }, .script { command := some "jump".toList }⟩,
+    ⟨{ line := some 2 }, .preProcess (some includeName) (some ["f.ds".toList])⟩,
+    ⟨{ line := some 3 }, .script { command := some "boom".toList }⟩,
+    ⟨{ line := some 4 }, .script { label := some L, output := some x,
+                                   command := some "set".toList }⟩ ]
+
+/-- `set` / `!include_files f.ds` / `boom`: the run passes the directive, then fails -/
+def prog₂ : List Instruction :=
+  [ ⟨{ line := some 1 }, .script { output := some x, command := some "set".toList }⟩,
+    ⟨{ line := some 2 }, .preProcess (some includeName) (some ["f.ds".toList])⟩,
+    ⟨{ line := some 3 }, .script { command := some "boom".toList }⟩ ]
+
+/-- `jump` goes to label `L`, `boom` crashes, `set` returns "1"; the line index is ignored -/
+def sem : CmdSem Unit := fun name _ _ _ vars s =>
+  if name = "jump".toList then some (.goTo none (.label L), vars, s)
+  else if name = "boom".toList then some (.crash "bang".toList, vars, s)
+  else if name = "set".toList then some (.continue (some "1".toList), vars, s)
+  else none
+
+end C14RunExample
+
+open C14RunExample in
+/-- the example semantics is in the fragment of the theorems -/
+theorem C14_example_sem_ok : LineInsensitive sem ∧ NoAbsoluteJumps sem := by
+  refine ⟨fun _ _ _ _ _ _ _ => rfl, ?_⟩
+  intro name args out l vars s v n vars' s' h
+  unfold sem at h
+  repeat' split at h
+  all_goals simp at h
+
+namespace C14RunExample
+
+/-- the directive is the only instruction removed, by either selection -/
+example : dropDirectives prog = stripDirectives prog ∧ (dropDirectives prog).length = 3 := by
+  decide
+
+/-- the label sits at index 3 of the list and at index 2 = `posIn … 3` of the shorter list -/
+example : lookupLabel (labelTable prog) L = some 3 ∧
+    lookupLabel (labelTable (dropDirectives prog)) L = some 2 ∧
+    posIn (fun i => !isPreProcess i) prog 3 = 2 := by decide
+
+/-- the run of the list: jump over the directive and `boom` to the label, set `x`, end -/
+example : run sem noHalt 3 prog [] () = (⟨4, 3, [(x, "1".toList)], ()⟩, .reachedEnd) := by rfl
+
+example : run sem noHalt 3 (dropDirectives prog) [] () =
+    (⟨3, 3, [(x, "1".toList)], ()⟩, .reachedEnd) := by rfl
+
+/-- … and this is what the theorem says about them -/
+example : SameOutcome (run sem noHalt 3 prog [] ()) (run sem noHalt 3 (dropDirectives prog) [] ()) :=
+  (C14_run_dropDirectives sem C14_example_sem_ok.1 C14_example_sem_ok.2 noHalt (fun _ _ _ => rfl)
+    prog [] ()).2.2 3 3 (by decide) (by decide)
+
+/-- a run that executes the directive (one more step, one more poll) and then fails:
+    same message, same meta info (line 3) on both sides -/
+example : run sem noHalt 3 prog₂ [] () =
+    (⟨2, 3, [(x, "1".toList)], ()⟩, .fail "bang".toList { line := some 3 }) := by rfl
+
+example : run sem noHalt 2 (dropDirectives prog₂) [] () =
+    (⟨1, 2, [(x, "1".toList)], ()⟩, .fail "bang".toList { line := some 3 }) := by rfl
+
+example : Finished (run sem noHalt 3 (dropDirectives prog₂) [] ()) :=
+  (C14_run_dropDirectives sem C14_example_sem_ok.1 C14_example_sem_ok.2 noHalt (fun _ _ _ => rfl)
+    prog₂ [] ()).1 3 (by decide)
+
+/-- the abstract machine of C03 agrees -/
+example : Reaches sem (dropDirectives prog) ⟨0, [], ()⟩ (.ok [(x, "1".toList)] ()) :=
+  (C14_reaches_iff sem C14_example_sem_ok.1 C14_example_sem_ok.2 _ dropsOnly_notPre prog 0 [] ()
+    _).1 (C03_sound sem prog 3 ⟨0, 0, [], ()⟩ _ _ _ (by rfl) rfl)
+
+end C14RunExample
+
+/-! ### the restrictions are necessary (counterexamples) -/
+
+open C14RunExample in
+/-- the right-to-left half of `lookup is l = some k ↔ lookup is' l = some (pos k)` fails when
+    `k` is the index of a dropped directive standing immediately before the label line:
+    in `[jump, directive, :L set]` the label is at 2, `pos 1 = pos 2 = 1`, so for `k = 1` (the
+    directive) the right-hand side holds and the left-hand side does not -/
+theorem C14_label_iff_counterexample :
+    let is : List Instruction :=
+      [ ⟨{}, .script { command := some "jump".toList }⟩,
+        ⟨{}, .preProcess (some includeName) none⟩,
+        ⟨{}, .script { label := some L, command := some "set".toList }⟩ ]
+    lookupLabel (labelTable (dropDirectives is)) L = some (posIn (fun i => !isPreProcess i) is 1) ∧
+      lookupLabel (labelTable is) L ≠ some 1 := by decide
+
+open C14RunExample in
+/-- a command that jumps to an ABSOLUTE line: the long list lands on `:L x = set`, the short one
+    past the end — the variables differ.  `NoAbsoluteJumps` cannot be dropped. -/
+theorem C14_absolute_jump_differs :
+    let semAbs : CmdSem Unit := fun name _ _ _ vars s =>
+      if name = "jump".toList then some (.goTo none (.line 3), vars, s) else sem name [] none 0 vars s
+    LineInsensitive semAbs ∧
+    (run semAbs noHalt 9 prog [] ()).1.vars = [(x, "1".toList)] ∧
+    (run semAbs noHalt 9 (dropDirectives prog) [] ()).1.vars = [] ∧
+    (run semAbs noHalt 9 prog [] ()).2 = .reachedEnd ∧
+    (run semAbs noHalt 9 (dropDirectives prog) [] ()).2 = .reachedEnd := by
+  refine ⟨fun _ _ _ _ _ _ _ => rfl, ?_, ?_, ?_, ?_⟩ <;> rfl
+
+open C14RunExample in
+/-- a command that looks at its line index: `LineInsensitive` cannot be dropped either -/
+theorem C14_line_sensitive_differs :
+    let semLine : CmdSem Unit := fun _ _ _ line vars s =>
+      some (.continue (some (natToStr line)), vars, s)
+    NoAbsoluteJumps semLine ∧
+    (run semLine noHalt 9 prog [] ()).1.vars = [(x, "3".toList)] ∧
+    (run semLine noHalt 9 (dropDirectives prog) [] ()).1.vars = [(x, "2".toList)] := by
+  refine ⟨?_, ?_, ?_⟩
+  · intro name args out l vars s v n vars' s' h
+    simp at h
+  · decide
+  · decide
+
+open C14RunExample in
+/-- an oracle indexed by the number of the poll is NOT preserved: "halt at the third poll"
+    stops the long list before `boom`, while the short list has already failed by then -/
+theorem C14_poll_indexed_halt_differs :
+    let halt : Nat → Unit → Bool := fun k _ => k == 2
+    (run sem halt 9 prog₂ [] ()).2 = .halted ∧
+    (run sem halt 9 (dropDirectives prog₂) [] ()).2 = .fail "bang".toList { line := some 3 } := by
+  constructor <;> rfl
+
+end Duck
